@@ -1882,7 +1882,11 @@ class FloatAttr(BuiltinAttribute, TypedAttribute, Generic[_FloatAttrTypeCovT]):
             | BFloat16Type
             | ReducedPrecisionFloatType,
         ):
-            value = type.unpack(type.pack((value,)), 1)[0]
+            try:
+                value = type.unpack(type.pack((value,)), 1)[0]
+            except OverflowError:
+                # Finite values too large for the format round to infinity
+                value = math.copysign(math.inf, value)
 
         data_attr = FloatData(value)
 
